@@ -66,7 +66,8 @@ def judge(ck, cases, res, ans):
             # the listed defect (a single leg that is the product of other single legs goes unnoticed, see C01) also misleads
             # the later dependency tests of the same graph: only failures of closure / dependents / span can be its consequence
             key = None
-            if all(b in ("deps", "closure") or b.startswith("span") for b in bad):
+            # (the clause "one canonical graph per component" contains the closure equality per component: when the closure clause fails it fails with it)
+            if all(b in ("deps", "closure") or b.startswith("span") or (b == "comps" and "closure" in bad) for b in bad):
                 from harness.c01 import signature
                 key = signature(r["morphs"], r.get("attach_sites"))
             ck.fail(key, "n=%d generators %s: %s" % (n, g, "; ".join(names.get(b, b) for b in bad)),
